@@ -25,6 +25,7 @@ fn thorough_modes() -> bool {
 /// embedded in longer status strings ("Successfully connected on app: ..."), so names within ~130
 /// bytes of the 65,535-byte AMF0 limit may legitimately be refused when such a string is built.
 fn may_refuse(kind: &str, v: u64) -> bool {
+    let kind = kind.trim_end_matches("_utf8");
     (kind == "app_len" || kind == "key_len") && v > 65_400
 }
 
@@ -32,6 +33,7 @@ fn must_refuse(kind: &str, v: u64) -> bool {
     if kind.contains("chunk") {
         return v == 0 || v > 0x7FFF_FFFF;
     }
+    let kind = kind.trim_end_matches("_utf8");
     if kind.ends_with("_len") && !kind.starts_with("payload") {
         return v > 65_535;
     }
@@ -68,7 +70,20 @@ fn run_cfg_case(kind: &str, v: u64) -> (String, String) {
     let refused = |e: String| ("refused".to_string(), e);
     let ok = |d: &str| ("ok".to_string(), d.to_string());
     let broken = |e: String| ("broken".to_string(), e);
-    let text = |n: u64| "v".repeat(n as usize);
+    // `_utf8` kinds use two-byte characters, so the byte length differs from the character count
+    let utf8 = kind.ends_with("_utf8");
+    let kind: &str = kind.trim_end_matches("_utf8");
+    let text = move |n: u64| {
+        if utf8 {
+            let mut t = "\u{e9}".repeat((n / 2) as usize);
+            if n % 2 == 1 {
+                t.push('a');
+            }
+            t
+        } else {
+            "v".repeat(n as usize)
+        }
+    };
     match kind {
         "ser_chunk" => {
             let mut ser = ChunkSerializer::new();
@@ -269,6 +284,9 @@ pub fn run(run: &Run) {
     for k in ["fms_version_len", "flash_version_len", "tc_url_len", "app_len", "key_len"] {
         for &v in len_vals.iter() {
             cases.push((k.to_string(), v));
+            if v >= 14 {
+                cases.push((format!("{}_utf8", k), v));
+            }
         }
     }
     for &v in &[0u64, 16_777_215, 16_777_216] {
